@@ -49,10 +49,14 @@ def xIsDegenN (A : Alphabet) (x : Nat) : Bool := x > A.K && x < A.Kp - 2
 def xIsResidueN (A : Alphabet) (x : Nat) : Bool := x < A.K || (x > A.K && x < A.Kp - 2)
 
 /-- `abc_ct[apos]` of `count_msa` without weights: sequences in order, each adds its residue of this column -/
+def columnCountsW (A : Alphabet) (noAmbig : Bool) (rows : List (List Nat)) (wts : List Float) (apos : Nat) : List Float :=
+  (rows.zip wts).foldl (fun ct rw =>
+    let x := rw.1.getD apos 0
+    if !noAmbig || !xIsDegenN A x then dCount A ct x rw.2 else ct) (List.replicate (A.K + 1) 0.0)
+
+/-- … without `--weight`: every sequence counts 1.0 -/
 def columnCounts (A : Alphabet) (noAmbig : Bool) (rows : List (List Nat)) (apos : Nat) : List Float :=
-  rows.foldl (fun ct r =>
-    let x := r.getD apos 0
-    if !noAmbig || !xIsDegenN A x then dCount A ct x 1.0 else ct) (List.replicate (A.K + 1) 0.0)
+  columnCountsW A noAmbig rows (rows.map fun _ => 1.0) apos
 
 /-- `esl_vec_DNorm` -/
 def dNorm (v : List Float) : List Float :=
@@ -68,12 +72,16 @@ def padL (w : Nat) (s : String) : String := padLeft w s
 def fF (w d : Nat) (x : Float) : String := padLeft w (if x.isNaN then "-nan" else fmtFloatSigned x d)
 
 /-- the shared head of the info files -/
-def infoHead (title alifile : String) (nali : Nat) (name : Option Bytes) (extra : List String) (nseq : Nat) (post : List String) : String :=
+def weightsNote (useW : Bool) : String :=
+  if useW then "# IMPORTANT: Counts are weighted based on sequence weights in alignment file.\n"
+  else "# Sequence weights from alignment were ignored (if they existed).\n"
+
+def infoHead (title alifile : String) (nali : Nat) (name : Option Bytes) (extra : List String) (nseq : Nat) (post : List String)
+    (useW : Bool := false) : String :=
   title ++ "# Alignment file: " ++ alifile ++ "\n# Alignment idx:  " ++ toString nali ++ "\n" ++
   (match name with | some n => "# Alignment name: " ++ b2sA n ++ "\n" | none => "") ++
   String.join extra ++
-  "# Number of sequences: " ++ toString nseq ++ "\n" ++ String.join post ++
-  "# Sequence weights from alignment were ignored (if they existed).\n#\n"
+  "# Number of sequences: " ++ toString nseq ++ "\n" ++ String.join post ++ weightsNote useW ++ "#\n"
 where b2sA (b : Bytes) : String := String.ofList (b.map fun x => Char.ofNat x.toNat)
 
 def bytesStr (b : Bytes) : String := String.ofList (b.map fun x => Char.ofNat x.toNat)
@@ -90,11 +98,16 @@ structure AliView where
   rows : List (List Nat)          -- digital codes, `alen` per row
   alen : Nat
   iamrf : Option (List Bool)
+  wts : List Float := []                          -- `msa->wgt`
+  useW : Bool := false                            -- `--weight` given AND some weight differs from 1.0 (`check_msa_weights`)
+  cntW : Bool := false                            -- `--weight` given: `count_msa` multiplies by `msa->wgt[i]`
+  pp : Option (List (Option Bytes)) := none     -- `msa->pp` (NULL when no sequence has a #=GR PP line)
+  sscons : Option Bytes := none
 
 /-- `--rinfo` -/
 def rinfoText (A : Alphabet) (alifile : String) (v : AliView) (cts : List (List Float)) : String :=
   let nseq := v.rows.length
-  let head := infoHead "# Insert information:\n" alifile v.nali v.name [] nseq []
+  let head := infoHead "# Insert information:\n" alifile v.nali v.name [] nseq [] v.useW
   let cols := match v.iamrf with
     | some _ => "# " ++ padL 7 "rfpos" ++ "  " ++ padL 7 "alnpos" ++ "  " ++ padL 10 "numres" ++ "  " ++ padL 8 "freqres" ++ "  " ++ padL 10 "numgap" ++ "  " ++ padL 8 "freqgap" ++ "\n" ++
                 "# " ++ "-------" ++ "  " ++ "-------" ++ "  " ++ "----------" ++ "  " ++ "--------" ++ "  " ++ "----------" ++ "  " ++ "--------" ++ "\n"
@@ -118,7 +131,7 @@ def cinfoText (A : Alphabet) (noAmbig : Bool) (alifile : String) (v : AliView) (
     else if A.type == 2 then ["# Ambiguities were averaged (e.g. 1 'N' = 0.25 'A', 0.25 'C', 0.25 'G' and 0.25 'T')\n"]
     else if A.type == 3 then ["# Ambiguities were averaged (e.g. 1 'X' = 0.05 each for all 20 amino acids\n"]
     else []
-  let head := infoHead "# Per column residue counts:\n" alifile v.nali v.name [] nseq amb
+  let head := infoHead "# Per column residue counts:\n" alifile v.nali v.name [] nseq amb v.useW
   let syms := (List.range A.K).map fun i => Char.ofNat (A.sym.getD i 63)
   let h1 := "# " ++ padL 7 "alnpos" ++ String.join (syms.map fun c => "     " ++ String.singleton c ++ "   ") ++ "\n"
   let h2 := "# " ++ "-------" ++ String.join (syms.map fun _ => "  -------") ++ "\n"
@@ -131,7 +144,7 @@ def cinfoText (A : Alphabet) (noAmbig : Bool) (alifile : String) (v : AliView) (
 def icinfoText (A : Alphabet) (alifile : String) (v : AliView) (cts : List (List Float)) : String :=
   let nseq := v.rows.length
   let bgEnt := dEntropy (List.replicate A.K (1.0 / Float.ofNat A.K))
-  let head := infoHead "# Information content per column (bits):\n" alifile v.nali v.name [] nseq []
+  let head := infoHead "# Information content per column (bits):\n" alifile v.nali v.name [] nseq [] v.useW
   let cols := match v.iamrf with
     | some _ => "# " ++ padL 7 "rfpos" ++ "  " ++ padL 7 "alnpos" ++ "  " ++ padL 10 "freqnongap" ++ "  " ++ padL 10 "info(bits)" ++ "\n" ++
                 "# " ++ "-------" ++ "  " ++ "-------" ++ "  " ++ "----------" ++ "  " ++ "----------" ++ "\n"
@@ -155,6 +168,14 @@ def insertCounts (A : Alphabet) (iamrf : List Bool) (rows : List (List Nat)) : L
     if iamrf.getD apos false then (st.1 + 1, st.2)
     else (st.1, st.2.set st.1 ((st.2.getD st.1 []).zipWith (fun c r => if xIsResidueN A (r.getD apos 0) then c + 1 else c) rows))) (0, init)).2
 
+/-- `total_ict[rfpos] += seqwt` for every residue in a non-RF column, in the source's order (columns outer, sequences inner) -/
+def insertTotals (A : Alphabet) (iamrf : List Bool) (rows : List (List Nat)) (sw : Nat → Float) : List Float :=
+  let rflen := (iamrf.filter id).length
+  ((List.range iamrf.length).foldl (fun (st : Nat × List Float) apos =>
+    if iamrf.getD apos false then (st.1 + 1, st.2)
+    else (st.1, (rows.zip (List.range rows.length)).foldl (fun tot ri =>
+      if xIsResidueN A (ri.1.getD apos 0) then tot.set st.1 (tot.getD st.1 0.0 + sw ri.2) else tot) st.2)) (0, List.replicate (rflen + 1) 0.0)).2
+
 /-- `--iinfo` (requires RF) -/
 def iinfoText (A : Alphabet) (alifile : String) (v : AliView) (iamrf : List Bool) : String :=
   let nseq := v.rows.length
@@ -162,20 +183,116 @@ def iinfoText (A : Alphabet) (alifile : String) (v : AliView) (iamrf : List Bool
     (match v.name with | some n => "# Alignment name: " ++ bytesStr n ++ "\n" | none => "") ++
     "# rfpos is the nongap RF position after which insertions occur\n" ++
     "# An rfpos of '0' indicates insertions before the first nongap RF position\n" ++
-    "# Number of sequences: " ++ toString nseq ++ "\n" ++
-    "# Sequence weights from alignment were ignored (if they existed).\n#\n" ++
+    "# Number of sequences: " ++ toString nseq ++ "\n" ++ weightsNote v.useW ++ "#\n" ++
     "# " ++ padL 8 "rfpos" ++ "  " ++ padL 10 "nseq w/ins" ++ "  " ++ padL 8 "freq ins" ++ "  " ++ padL 8 "avg len" ++ "\n" ++
     "# " ++ "--------" ++ "  " ++ "----------" ++ "  " ++ "--------" ++ "  " ++ "--------" ++ "\n"
   let ict := insertCounts A iamrf v.rows
   let lines := ict.mapIdx fun rfpos per =>
     -- `total_ict[rfpos] += seqwt` once per inserted residue; `nseq += seqwt` once per sequence with an insert (weights 1.0)
-    let total := per.foldl (fun (t : Float) c => (List.range c).foldl (fun t _ => t + 1.0) t) 0.0
-    let n := per.foldl (fun (t : Float) c => if c ≥ 1 then t + 1.0 else t) 0.0
+    -- NOTE the order of the additions to `total_ict[rfpos]` in the source is column by column, sequence by sequence; with weights
+    -- that are not all equal the binary64 sum could depend on it: `insertTotals` below keeps the source's order
+    let sw := fun (i : Nat) => if v.useW then v.wts.getD i 1.0 else 1.0
+    let total := (insertTotals A iamrf v.rows sw).getD rfpos 0.0
+    let n := (per.zip (List.range per.length)).foldl (fun (t : Float) ci => if ci.1 ≥ 1 then t + sw ci.2 else t) 0.0
     if n > 0.0 then
       "  " ++ padL 8 (toString rfpos) ++ "  " ++ fF 10 1 n ++ "  " ++ fF 8 6 (n / Float.ofNat nseq) ++ "  " ++
         fF 8 3 (total.toFloat32 / n.toFloat32).toFloat ++ "\n"
     else ""
   head ++ String.join lines ++ "//\n"
+
+/-! ### posterior probabilities (`--pcinfo`, `--psinfo`) and consensus base pairs (`--bpinfo`) -/
+
+/-- `get_pp_idx`: `0`-`9` → 0-9, `*` → 10, a gap character → 11, anything else is an error -/
+def ppIdx (t : TAbc) (c : UInt8) : Option Nat :=
+  if c.toNat < 128 && t.cIsGap c then some 11
+  else if c == 42 then some 10
+  else if 48 ≤ c && c ≤ 57 then some (c.toNat - 48)
+  else none
+
+/-- `ppavgA[]`, binary32 -/
+def ppAvg : List Float32 :=
+  [(0.025 : Float).toFloat32, (0.10 : Float).toFloat32, (0.20 : Float).toFloat32, (0.30 : Float).toFloat32, (0.40 : Float).toFloat32,
+   (0.50 : Float).toFloat32, (0.60 : Float).toFloat32, (0.70 : Float).toFloat32, (0.80 : Float).toFloat32, (0.90 : Float).toFloat32,
+   (0.975 : Float).toFloat32]
+
+def ppString : List Char := "0123456789*.".toList
+
+/-- `pp_ct[apos]` of `count_msa`; `none` = "bad #=GR PP char" -/
+def ppColumnCounts (V : AbcViews) (noAmbig : Bool) (v : AliView) (pp : List (Option Bytes)) (apos : Nat) : Option (List Float) :=
+  ((v.rows.zip (v.rows.zipIdx.map fun ri => if v.cntW then v.wts.getD ri.2 1.0 else 1.0)).zip pp).foldlM (fun (ct : List Float) (rp : (List Nat × Float) × Option Bytes) =>
+    match rp.2 with
+    | none => some ct
+    | some line =>
+      if !noAmbig || !xIsDegenN V.a (rp.1.1.getD apos 0) then
+        (ppIdx V.t (line.getD apos 0)).map fun k => ct.set k (ct.getD k 0.0 + rp.1.2)
+      else some ct) (List.replicate 12 0.0)
+
+/-- `--pcinfo` (the second header line always carries the `rfpos` dashes: the source prints them unconditionally) -/
+def pcinfoText (alifile : String) (v : AliView) (cts : List (List Float)) : String :=
+  let nseq := v.rows.length
+  let head := infoHead "# Posterior probability stats per column:\n" alifile v.nali v.name [] nseq [] v.useW
+  let h1 := "# " ++ padL 6 "alnpos" ++ (if v.iamrf.isSome then "  " ++ padL 6 "rfpos" else "") ++ "  " ++ padL 9 "nnongap" ++
+    String.join (ppString.map fun c => "  " ++ padL 9 (String.singleton c)) ++ "  " ++ padL 9 "avgPP" ++ "\n"
+  let h2 := "# " ++ "------" ++ "  " ++ "------" ++ "  " ++ "---------" ++ String.join (ppString.map fun _ => "  ---------") ++ "  ---------\n"
+  let rfc : List String := match v.iamrf with
+    | some l => ((l.foldl (fun (st : Nat × List String) b =>
+        if b then (st.1 + 1, ("  " ++ padL 6 (toString st.1)) :: st.2) else (st.1, ("  " ++ padL 6 "-") :: st.2)) (1, [])).2).reverse
+    | none => List.replicate v.alen ""
+  let lines := (List.range v.alen).map fun apos =>
+    let ct := cts.getD apos []
+    let nnongap := kahanSum (ct.take 11)
+    let sum := (List.range 11).foldl (fun (acc : Float) k => acc + ct.getD k 0.0 * (ppAvg.getD k 0).toFloat) 0.0
+    "  " ++ padL 6 (toString (apos + 1)) ++ rfc.getD apos "" ++ "  " ++ fF 9 1 nnongap ++
+      String.join (ct.map fun x => "  " ++ fF 9 1 x) ++ "  " ++ fF 0 5 (sum / nnongap) ++ "\n"
+  head ++ h1 ++ h2 ++ String.join lines ++ "//\n"
+
+/-- `--psinfo`; `none` = "bad #=GR PP char" -/
+def psinfoText (V : AbcViews) (alifile : String) (v : AliView) (pp : List (Option Bytes)) : Option String := do
+  let nseq := v.rows.length
+  let head := "# Posterior probability stats per sequence:\n# Alignment file: " ++ alifile ++ "\n# Alignment idx:  " ++ toString v.nali ++ "\n" ++
+    (match v.name with | some n => "# Alignment name: " ++ bytesStr n ++ "\n" | none => "") ++
+    "# Number of sequences: " ++ toString nseq ++ "\n" ++
+    "# " ++ padL 7 "seqidx" ++ "  " ++ padRight 40 "seqname" ++ "  " ++ padL 7 "nnongap" ++
+      String.join ((ppString.take 11).map fun c => "  " ++ padL 7 (String.singleton c)) ++ "  " ++ padL 7 "avgPP" ++ "\n" ++
+    "# " ++ "-------" ++ "  " ++ "----------------------------------------" ++ "  " ++ "-------" ++
+      String.join ((ppString.take 11).map fun _ => "  -------") ++ "  -------\n"
+  let lines ← ((List.range nseq).zip pp).mapM fun (i, line?) =>
+    match line? with
+    | none => some ""
+    | some line => do
+      let idxs ← (line.take v.alen).mapM (ppIdx V.t)
+      let ct := (List.range 12).map fun k => idxs.count k
+      let nnongap := (ct.take 11).sum
+      let sum := (List.range 11).foldl (fun (acc : Float) k => acc + (Float32.ofNat (ct.getD k 0) * ppAvg.getD k 0).toFloat) 0.0
+      some ("  " ++ padL 7 (toString (i + 1)) ++ "  " ++ padRight 40 (bytesStr (v.names.getD i [])) ++ "  " ++ padL 7 (toString nnongap) ++
+        String.join ((ct.take 11).map fun c => "  " ++ padL 7 (toString c)) ++ "  " ++ fF 0 5 (sum / (Float32.ofNat nnongap).toFloat) ++ "\n")
+  some (head ++ String.join lines ++ "//\n")
+
+/-- `--bpinfo`: the consensus pairs of `SS_cons` without pseudoknots (C15 `wussNopseudo`, `wuss2ct`), per pair the K×K counts of
+    canonical residue pairs over the sequences; `none` = "Consensus structure string is inconsistent" -/
+def bpinfoText (A : Alphabet) (alifile : String) (v : AliView) (ss : Bytes) : Option String := do
+  let ct ← EaselModel.Msa.wuss2ct (EaselModel.Msa.wussNopseudo (ss.take v.alen))
+  let nseq := v.rows.length
+  let head := "# Per-column basepair counts:\n# Alignment file: " ++ alifile ++ "\n# Alignment idx:  " ++ toString v.nali ++ "\n" ++
+    (match v.name with | some n => "# Alignment name: " ++ bytesStr n ++ "\n" | none => "") ++
+    "# Number of sequences: " ++ toString nseq ++ "\n" ++
+    "# Only basepairs involving two canonical (non-degenerate) residues were counted.\n" ++ weightsNote v.useW ++ "#\n"
+  let syms := (List.range A.K).map fun i => Char.ofNat (A.sym.getD i 63)
+  let pairsIdx := (List.range A.K).flatMap fun i => (List.range A.K).map fun j => (i, j)
+  let h1 := "# " ++ padL 7 "lpos" ++ "  " ++ padL 7 "rpos" ++
+    String.join (pairsIdx.map fun (i, j) => "    " ++ String.singleton (syms.getD i '?') ++ String.singleton (syms.getD j '?') ++ "  ") ++ "\n"
+  let h2 := "# " ++ "-------" ++ "  " ++ "-------" ++ String.join (pairsIdx.map fun _ => "  ------") ++ "\n"
+  let lines := (List.range v.alen).map fun apos =>
+    let r := ct.getD (apos + 1) 0
+    if r > apos + 1 then
+      "  " ++ padL 7 (toString (apos + 1)) ++ "  " ++ padL 7 (toString r) ++
+        String.join (pairsIdx.map fun (i, j) =>
+          -- `bp_ct[apos][x][y] += seqwt` sequence by sequence, printed as `(int)`
+          let c := (v.rows.zipIdx).foldl (fun (acc : Float) ri =>
+            if ri.1.getD apos 0 == i && ri.1.getD (r - 1) 0 == j then acc + (if v.cntW then v.wts.getD ri.2 1.0 else 1.0) else acc) 0.0
+          "  " ++ padL 6 (toString c.floor.toUInt64.toNat)) ++ "\n"
+    else ""
+  some (head ++ h1 ++ h2 ++ String.join lines ++ "//\n")
 
 structure AlistatOpts where
   oneLine : Bool := false
@@ -185,19 +302,43 @@ structure AlistatOpts where
   rinfo : Option String := none
   iinfo : Option String := none
   cinfo : Option String := none
+  weight : Bool := false
+  pcinfo : Option String := none
+  psinfo : Option String := none
+  bpinfo : Option String := none
 
 def fmtName (infmt : String) : String := if infmt == "pfam" then "Pfam" else "Stockholm"
 
+/-- a plain decimal `ddd[.ddd]` as the binary64 `strtod` returns (correctly rounded) -/
+def parseDec (b : Bytes) : Option Float :=
+  match b.splitOn 46 with
+  | [i] => if !i.isEmpty && i.all isDigit then (String.ofList (i.map fun x => Char.ofNat x.toNat)).toNat?.map Float.ofNat else none
+  | [i, f] =>
+    if (i ++ f).isEmpty || !(i ++ f).all isDigit then none
+    else (String.ofList ((i ++ f).map fun x => Char.ofNat x.toNat)).toNat?.map fun n => Float.ofScientific n true f.length
+  | _ => none
+
+/-- `msa->wgt[]` of one alignment, read off its own `#=GS <name> WT <value>` lines (C03's reader model keeps only whether a weight
+    is set, not its value); a sequence without a WT line has weight 1.0; `none` = a value that is not a plain decimal -/
+def wtsOfSpan (names : List Bytes) (span : List Bytes) : Option (List Float) :=
+  let toks (l : Bytes) : List Bytes := ((l.splitOn 32).flatMap fun w => w.splitOn 9).filter fun w => !w.isEmpty
+  let wl : List (Bytes × Bytes) := span.filterMap fun l =>
+    match toks l with
+    | [g, n, t, v] => if g == str "#=GS" && t == str "WT" then some (n, v) else none
+    | _ => none
+  names.mapM fun n => match wl.find? (fun p => p.1 == n) with | some (_, v) => parseDec v | none => some 1.0
+
 /-- one alignment of the file, as the tool sees it; `none` = the tool stops with a message (RF without consensus column) -/
-def viewOf (V : AbcViews) (nali : Nat) (m : FMsa) : Option AliView :=
+def viewOf (V : AbcViews) (nali : Nat) (m : FMsa) (wts : List Float := []) : Option AliView :=
   if !m.digital then none else
   let rows := m.ax.map fun r => ((r.drop 1).dropLast).map (·.toNat)
+  let wts := if wts.isEmpty then rows.map fun _ => 1.0 else wts
   match m.rf with
   | some rf =>
     if rf.any (fun c => c.toNat ≥ 128) then none else
     let l := (iAmRf V.t rf).take m.alen
-    if l.any id then some ⟨nali, m.name, m.names, rows, m.alen, some l⟩ else none
-  | none => some ⟨nali, m.name, m.names, rows, m.alen, none⟩
+    if l.any id then some { nali := nali, name := m.name, names := m.names, rows := rows, alen := m.alen, iamrf := some l, wts := wts, pp := m.pp, sscons := m.ssCons } else none
+  | none => some { nali := nali, name := m.name, names := m.names, rows := rows, alen := m.alen, iamrf := none, wts := wts, pp := m.pp, sscons := m.ssCons }
 
 /-- the summary block / line of one alignment -/
 def summaryText (V : AbcViews) (o : AlistatOpts) (infmt : String) (v : AliView) : String :=
@@ -233,17 +374,35 @@ def oneLineHeader : String :=
 def alistatInfo (V : AbcViews) (o : AlistatOpts) (infmt alifile : String) (src : Bytes) : Option (String × List (String × String)) :=
   if infmt != "stockholm" && infmt != "pfam" then none else
   let ls := EaselModel.Msafile.splitLines src
-  match readAll (stockholmRead (stockholmCfg (some V.f))) (ls.length + 2) ls [] with
+  match readAllSpans (stockholmRead (stockholmCfg (some V.f))) (ls.length + 2) ls [] with
   | none => none
-  | some ms =>
-    if ms.isEmpty then none else
-    match (ms.mapIdx fun i m => viewOf V (i + 1) m).mapM id with
+  | some recs =>
+    if recs.isEmpty then none else
+    match (recs.mapIdx fun i r => (if o.weight then wtsOfSpan r.1.names r.2 else some []).bind fun w => viewOf V (i + 1) r.1 w).mapM id with
     | none => none
-    | some vs =>
+    | some vs0 =>
+      -- `weights_exist`: some weight differs from 1.0 as a binary32 (`esl_FCompare_old(wgt, 1.0, eslSMALLX1)`: the tolerance is below float resolution)
+      let vs := vs0.map fun v => { v with cntW := o.weight, useW := o.weight && v.wts.any fun w => w.toFloat32 != (1.0 : Float).toFloat32 }
       if o.iinfo.isSome && vs.any (fun v => v.iamrf.isNone) then none else
-      let needCt := o.icinfo.isSome || o.rinfo.isSome || o.cinfo.isSome
+      if (o.pcinfo.isSome || o.psinfo.isSome) && vs.any (fun v => v.pp.isNone) then none else
+      if o.bpinfo.isSome && vs.any (fun v => v.sscons.isNone) then none else
+      -- the PP counts are collected (and a bad PP character is fatal) whenever any count-based file is asked for and the alignment has PP lines
+      let needCt := o.icinfo.isSome || o.rinfo.isSome || o.cinfo.isSome || o.pcinfo.isSome || o.bpinfo.isSome
+      match vs.mapM (fun v => match v.pp with
+          | some pp => if needCt then ((List.range v.alen).mapM (ppColumnCounts V o.noAmbig v pp)).map some else some none
+          | none => some none) with
+      | none => none
+      | some ppcts =>
+      match (if o.psinfo.isSome then vs.mapM (fun v => psinfoText V alifile v (v.pp.getD [])) else some []) with
+      | none => none
+      | some psTexts =>
+      match (if o.bpinfo.isSome then vs.mapM (fun v => bpinfoText V.a alifile v (v.sscons.getD [])) else some []) with
+      | none => none
+      | some bpTexts =>
+      -- `count_msa` needs the consensus pairs as soon as --bpinfo is on and the alignment has SS_cons: an inconsistent structure is fatal there
+      let needCt := needCt
       let per := vs.map fun v =>
-        let cts := if needCt then (List.range v.alen).map (columnCounts V.a o.noAmbig v.rows) else []
+        let cts := if needCt then (List.range v.alen).map (columnCountsW V.a o.noAmbig v.rows (v.rows.zipIdx.map fun ri => if v.cntW then v.wts.getD ri.2 1.0 else 1.0)) else []
         (v, cts)
       let out := (if o.oneLine then oneLineHeader else "") ++ String.join (vs.map (summaryText V o infmt))
       let file (opt : Option String) (f : AliView × List (List Float) → String) (note : String → String) : List (String × String) × String :=
@@ -256,7 +415,17 @@ def alistatInfo (V : AbcViews) (o : AlistatOpts) (infmt alifile : String) (src :
       let fr := file o.rinfo (fun p => rinfoText V.a alifile p.1 p.2) (fun fn => "# Residue data saved to file " ++ fn ++ ".\n")
       let fn_ := file o.iinfo (fun p => iinfoText V.a alifile p.1 (p.1.iamrf.getD [])) (fun fn => "# Insert data saved to file " ++ fn ++ ".\n")
       let fc := file o.cinfo (fun p => cinfoText V.a o.noAmbig alifile p.1 p.2) (fun fn => "# Per-column counts data saved to file " ++ fn ++ ".\n")
-      some (out ++ fl.2 ++ fi.2 ++ fr.2 ++ fn_.2 ++ fc.2, fl.1 ++ fi.1 ++ fr.1 ++ fn_.1 ++ fc.1)
+      let fpc : List (String × String) × String := match o.pcinfo with
+        | some fn => ([(fn, String.join ((vs.zip ppcts).map fun (v, c) => pcinfoText alifile v (c.getD [])))],
+                      "# Per-column posterior probability data saved to file " ++ fn ++ ".\n")
+        | none => ([], "")
+      let fps : List (String × String) × String := match o.psinfo with
+        | some fn => ([(fn, String.join psTexts)], "# Per-sequence posterior probability data saved to file " ++ fn ++ ".\n")
+        | none => ([], "")
+      let fbp : List (String × String) × String := match o.bpinfo with
+        | some fn => ([(fn, String.join bpTexts)], "# Per-column basepair counts data saved to file " ++ fn ++ ".\n")
+        | none => ([], "")
+      some (out ++ fl.2 ++ fi.2 ++ fr.2 ++ fpc.2 ++ fps.2 ++ fn_.2 ++ fc.2 ++ fbp.2, fl.1 ++ fi.1 ++ fr.1 ++ fpc.1 ++ fps.1 ++ fn_.1 ++ fc.1 ++ fbp.1)
 
 /-! ## `easel alistat [-1]` on a Stockholm / Pfam file (`miniapps/cmd_alistat.c`): the format is GUESSED (C03 `guessFormat`), every
     alignment is summarised; with `-1` the record size of an alignment is printed one loop iteration LATE (it is the distance to
@@ -320,9 +489,9 @@ theorem dCount_length (A : Alphabet) (ct : List Float) (x : Nat) (wt : Float) : 
       intro l y
       split <;> simp
 
-theorem columnCounts_length (A : Alphabet) (noAmbig : Bool) (rows : List (List Nat)) (apos : Nat) :
-    (columnCounts A noAmbig rows apos).length = A.K + 1 := by
-  unfold columnCounts
+theorem columnCountsW_length (A : Alphabet) (noAmbig : Bool) (rows : List (List Nat)) (wts : List Float) (apos : Nat) :
+    (columnCountsW A noAmbig rows wts apos).length = A.K + 1 := by
+  unfold columnCountsW
   rw [foldl_set_length]
   · simp
   · intro l r
@@ -330,6 +499,9 @@ theorem columnCounts_length (A : Alphabet) (noAmbig : Bool) (rows : List (List N
     split
     · exact dCount_length _ _ _ _
     · rfl
+
+theorem columnCounts_length (A : Alphabet) (noAmbig : Bool) (rows : List (List Nat)) (apos : Nat) :
+    (columnCounts A noAmbig rows apos).length = A.K + 1 := columnCountsW_length A noAmbig rows _ apos
 
 /-- a canonical residue or a gap adds its weight to its own counter and to no other -/
 theorem dCount_canonical (A : Alphabet) (ct : List Float) (x : Nat) (wt : Float) (hx : x ≤ A.K) (y : Nat) (hy : y ≠ x) :
